@@ -86,5 +86,43 @@ let () =
                with Bad | Failure _ | Invalid_argument _ -> "fail:unreadable-observation") in
           Mlutil.print_model (List.map obs_token m) verdict
         end
-    | "asm15", _ -> Mlutil.asm_case outs
+    | "asm15", [events; history] ->
+        (* the assembled server's hub fed through the real broker: the composed model (Model/HubFed.v) run on
+           the case's canonical schedule must itself end quiescent with the two monitors holding the emitted
+           sequence resp. its last N; the child process states the same clause about the implementation *)
+        let ev = int_of_string events and h = int_of_string history in
+        let m = match fed_drive_pinned (nat_of_int ev) (nat_of_int h) [] None with
+          | Some ((a, b), true)
+            when a = List.map (fun i -> TStored i) (asm_first (nat_of_int ev))
+              && b = List.map (fun i -> TStored i) (asm_late (nat_of_int ev) (nat_of_int h)) -> "ok"
+          | _ -> "model-disagrees-with-the-case" in
+        let verdict = match outs with
+          | ["ok"] -> "ok"
+          | o :: _ when String.length o > 5 && String.sub o 0 5 = "fail:" -> o
+          | o :: _ -> "fail:" ^ o
+          | [] -> "fail:no-observation" in
+        Mlutil.print_model [m] verdict
+    | "fed", [events; history; dels; fl] ->
+        let ev = int_of_string events and h = int_of_string history in
+        let dl = if dels = "-" then [] else List.map int_of_string (split ',' dels) in
+        let fo = if fl = "-" then None else Some (nat_of_int (int_of_string fl)) in
+        let tag = function TStored i -> "s" ^ string_of_int (int_of_nat i) | TDeleted i -> "x" ^ string_of_int (int_of_nat i) in
+        let show ts = String.concat ";" (List.map tag ts) in
+        let m = match fed_drive_pinned (nat_of_int ev) (nat_of_int h) (List.map nat_of_int dl) fo with
+          | Some ((a, b), q) -> ["first=" ^ show a; "late=" ^ show b; (if q then "quiescent" else "busy")]
+          | None -> ["MODEL-STUCK"] in
+        (* oracle: the case's clause said directly — the attached monitor holds every stored event once, in emit
+           order, then every deleted event in emit order; the late joiner holds the last N stored, minus the deleted *)
+        let ids = List.map int_of_nat (asm_first (nat_of_int ev)) in
+        let late_ids = List.filter (fun i -> not (List.mem i dl)) (List.map int_of_nat (asm_late (nat_of_int ev) (nat_of_int h))) in
+        let want_first = "first=" ^ String.concat ";" (List.map (fun i -> "s" ^ string_of_int i) ids @ List.map (fun i -> "x" ^ string_of_int i) dl) in
+        let want_late = "late=" ^ String.concat ";" (List.map (fun i -> "s" ^ string_of_int i) late_ids) in
+        let verdict = match outs with
+          | [a; b; q] ->
+              if a <> want_first then "fail:attached-monitor-did-not-see-each-event-once-in-order"
+              else if b <> want_late then "fail:late-joiner-history-differs"
+              else if q <> "quiescent" then "fail:hub-did-not-settle"
+              else "ok"
+          | _ -> "fail:observation-does-not-fit" in
+        Mlutil.print_model m verdict
     | _ -> Mlutil.print_model ["UNKNOWN-KIND"] "ok")
